@@ -186,7 +186,7 @@ TEXT = {
               "subnormals, the neighbourhoods of MIN_POSITIVE and MAX, few-bit mantissas (short decimal expansions) over 115 binades, "
               "the binades where the integer leaves u64 / u128, random bit patterns, decimals of 1..400 digits with "
               "exponents -400..400, exact halfway cases between adjacent floats and their far-digit neighbours. The exhaustive "
-              "2^32 binary32 sweep of the property's quantifier is NOT reached (stratified sample instead).",
+              "2^32 binary32 sweep of the property's quantifier is NOT reached (stratified sample instead). to_f64 is also driven at scales beyond the i32 range up to the i64 limits (wide relation WToF64OK: zero within one subnormal step when tiny, the infinity of the sign when huge); the defect this exposed is repaired in /repo (033eff2).",
         note=COMMON_NOTE,
         technique="TLA+ trace validation with TLC against an exact IEEE-754 decoder in the specification",
         ref="DESIGN.md section 7 C14"),
